@@ -230,7 +230,9 @@ macro "vm_fvc" : tactic => `(tactic| (
   try simp_all +zetaDelta [stackSize, fn_setLast, fn_popHandler]
   try omega
   try grind [fn_setLast, fn_popHandler, frameOK_setLast, frameOK_popHandler, frameOK_pushHandler, CInv.get!,
-    hasHandler_setLast, lastHandler_sp, hasHandler_of_last]))
+    hasHandler_setLast, lastHandler_sp, hasHandler_of_last]
+  try exact frameOK_noHandlers rfl
+  try (simp only [CInv, frameSize] at *; simp_all; omega)))
 
 theorem execSetupTry_ok (np : Bool) : StepSpec np execSetupTry := by
   apply triple_of_fixed'; intro s0 hpre
@@ -291,5 +293,19 @@ theorem execThrow_ok (np : Bool) : StepSpec np execThrow := by
   vm_fvc
   have h0 := lastHandler_sp (hpre.1.1.get! _) (by assumption)
   grind [fn_popHandler]
+
+set_option maxHeartbeats 3200000 in
+theorem execReturn_ok (np : Bool) : StepSpec np execReturn := by
+  apply triple_of_fixed'; intro s0 hpre
+  have sc := setCurFrame_spec
+  have cd := fun hi lo c0 => clearDown_spec hi lo c0 False
+  step_gen [execReturn, clearCurrentFrame, sc, cd]
+  all_goals (first | (vm_fvc; done) | skip)
+  all_goals (
+    vm_fvc
+    rename_i h
+    have hb : (s0.frameIndex - 2).toNat < frameSize := by simp only [frameSize] at *; omega
+    have := h.1.cur _ hb
+    simp_all)
 
 end UgoVerif.Proofs.VM
